@@ -46,3 +46,26 @@ Example C07_seeding_trace_nonvacuous :
   seeding_ok true None None 40 [EvRandint 40; EvSeedPy 40; EvSeedNp 40; EvRandint 77; EvSeedPy 77; EvSeedNp 77] = false /\
   seeding_ok true None None 40 [EvRandint 40; EvSeedPy 40; EvSeedNp 40; EvSeedPy 40; EvSeedNp 40] = true.
 Proof. vm_compute. repeat split; reflexivity. Qed.
+
+Require Import PyPrims PyPrimsQ SeedGen SeedTie.
+(* ---------- utils.set_random_seed GENERATED from /repo's source (generated/SeedGen.v; proofs/SeedTie.v) ---------- *)
+(* the source's set_random_seed IS the model's: same returned seed, same states of both global generators *)
+Theorem C07_source_set_random_seed_equals_model : forall (R NP : Type) seed_py seed_np np_randint (nth rs : option Z) (g : gens R NP),
+  g_set_random_seed R NP seed_py seed_np np_randint (mkGRng R NP (fst g) (snd g)) nth rs =
+  let r := set_random_seed R NP seed_py seed_np np_randint nth rs g in
+  Ok (mkGRng R NP (fst (snd r)) (snd (snd r)), fst r).
+Proof. exact set_random_seed_tie. Qed.
+Print Assumptions C07_source_set_random_seed_equals_model.
+
+(* hence, for the generated code: with an integer random_state the result does not depend on the ambient generator states at all, and the
+   returned seed is random_state + nth_process *)
+Theorem C07_source_seed_overrides_ambient : forall (R NP : Type) seed_py seed_np np_randint (nth : option Z) (s : Z) (a1 a2 : g_rng R NP),
+  g_set_random_seed R NP seed_py seed_np np_randint a1 nth (Some s) = g_set_random_seed R NP seed_py seed_np np_randint a2 nth (Some s) /\
+  exists g', g_set_random_seed R NP seed_py seed_np np_randint a1 nth (Some s) = Ok (g', s + match nth with Some n => n | None => 0 end).
+Proof.
+  intros R NP seed_py seed_np np_randint nth s [p1 n1] [p2 n2].
+  pose proof (set_random_seed_tie R NP seed_py seed_np np_randint nth (Some s) (p1, n1)) as T1.
+  pose proof (set_random_seed_tie R NP seed_py seed_np np_randint nth (Some s) (p2, n2)) as T2.
+  cbn [fst snd] in T1, T2. rewrite T1, T2. unfold set_random_seed. cbn [fst snd]. split; [reflexivity|]. eexists. reflexivity.
+Qed.
+Print Assumptions C07_source_seed_overrides_ambient.
